@@ -32,6 +32,10 @@ import (
 func ParseQuery(q string) (pq *proto.Query, err error) {
 	p := newParser(q)
 
+	// when parsing is finished (successfully or not), release the lexer goroutine, which
+	// may still be waiting to deliver a token that nobody is going to receive.
+	defer close(p.lexer.done)
+
 	defer p.recover(&err)
 
 	pq, err = p.parse()
@@ -298,6 +302,7 @@ type lexer struct {
 	width   pos
 	lastPos pos
 	items   chan item
+	done    chan struct{} // closed when the parser doesn't consume any further items
 }
 
 const eof = -1
@@ -344,6 +349,7 @@ func lex(input string) *lexer {
 	l := &lexer{
 		input: input,
 		items: make(chan item),
+		done:  make(chan struct{}),
 	}
 	go l.run()
 	return l
@@ -475,8 +481,16 @@ func (l *lexer) backup() {
 }
 
 func (l *lexer) emit(t itemType) {
-	l.items <- item{t, l.start, l.input[l.start:l.pos]}
+	l.send(item{t, l.start, l.input[l.start:l.pos]})
 	l.start = l.pos
+}
+
+// send delivers an item to the parser, unless the parser has already finished.
+func (l *lexer) send(i item) {
+	select {
+	case l.items <- i:
+	case <-l.done:
+	}
 }
 
 func (l *lexer) acceptRun(valid string) {
@@ -490,7 +504,7 @@ func (l *lexer) ignore() {
 }
 
 func (l *lexer) errorf(format string, args ...interface{}) stateFn {
-	l.items <- item{itemError, l.start, fmt.Sprintf(format, args...)}
+	l.send(item{itemError, l.start, fmt.Sprintf(format, args...)})
 	return nil
 }
 
